@@ -998,6 +998,35 @@ func NAME(a int, b int) (res int) {
 	}
 	out = append(out, mk("deferred-invoke-method/defer", SigII, []string{"defer-invoke"}, dv("\tdefer r.Close()\n\treturn res + 1 + len(done)"), dv("\tdefer r.Flush()\n\treturn res + 1 + len(done)")))
 	out = append(out, mk("deferred-invoke-method/go", SigII, []string{"go-invoke"}, dv("\tgo r.Close()\n\treturn res + 100*<-done"), dv("\tgo r.Flush()\n\treturn res + 100*<-done")))
+	// an unnamed function TYPE that differs only in being variadic: func(...int) int and
+	// func([]int) int are distinct types; a dynamic value has exactly one of them
+	vf := func(body string) string {
+		return `func sumNAME(xs ...int) int {
+	s := 0
+	for _, v := range xs {
+		s += v
+	}
+	return s
+}
+
+func NAME(a int, b int) (res int) {
+	var x any = sumNAME
+	if a&1 == 1 {
+		x = b
+	}
+` + body + `
+}
+`
+	}
+	out = append(out, mk("variadic-func-type/type-assert", SigII, []string{"func-type"},
+		vf("\tif f, ok := x.(func(...int) int); ok {\n\t\treturn f(a, b)\n\t}\n\treturn -1"),
+		vf("\tif f, ok := x.(func([]int) int); ok {\n\t\treturn f([]int{a, b})\n\t}\n\treturn -1")))
+	out = append(out, mk("variadic-func-type/type-switch", SigII, []string{"func-type"},
+		vf("\tswitch x.(type) {\n\tcase func(...int) int:\n\t\treturn 1\n\tcase int:\n\t\treturn 2\n\t}\n\treturn 0"),
+		vf("\tswitch x.(type) {\n\tcase func([]int) int:\n\t\treturn 1\n\tcase int:\n\t\treturn 2\n\t}\n\treturn 0")))
+	out = append(out, mk("variadic-func-type/typed-nil", SigII, []string{"func-type"},
+		vf("\tif a&2 == 2 {\n\t\tx = (func(...int) int)(nil)\n\t}\n\tif _, ok := x.(func(...int) int); ok {\n\t\tres = 5\n\t}\n\treturn res + b"),
+		vf("\tif a&2 == 2 {\n\t\tx = (func([]int) int)(nil)\n\t}\n\tif _, ok := x.(func(...int) int); ok {\n\t\tres = 5\n\t}\n\treturn res + b")))
 	gc := func(e string) string {
 		return `func catNAME[T ~string | ~int](x T, y T) T {
 	return ` + e + `
